@@ -229,7 +229,127 @@ fn one(ctx: &mut Ctx, plan: &Plan, program: bool) -> Option<Cmr> {
     Some(root)
 }
 
+// ---------------------------------------------------------------- policy compilation route
+
+type Pk = simplicity::elements::bitcoin::key::XOnlyPublicKey;
+type Pol = simplicity::Policy<Pk>;
+
+fn pol_text(p: &Pol) -> String {
+    match p {
+        Pol::Unsatisfiable(e) => format!("U:{}", gen::hex(&e.as_ref()[..4])),
+        Pol::Trivial => "T".into(),
+        Pol::Key(k) => format!("K:{}", gen::hex(&k.serialize()[..4])),
+        Pol::After(n) => format!("A:{n}"),
+        Pol::Older(n) => format!("O:{n}"),
+        Pol::Sha256(h) => format!("H:{}", gen::hex(&AsRef::<[u8]>::as_ref(h)[..4])),
+        Pol::And { left, right } => format!("and({},{})", pol_text(left), pol_text(right)),
+        Pol::Or { left, right } => format!("or({},{})", pol_text(left), pol_text(right)),
+        Pol::Threshold(k, v) => format!("thresh({k},{})", v.iter().map(pol_text).collect::<Vec<_>>().join(",")),
+    }
+}
+
+fn gen_pol(r: &mut crate::ctx::Rng, d: usize, keys: &[Pk]) -> Pol {
+    use simplicity::elements::bitcoin::hashes::{sha256, Hash};
+    let leaf = d == 0 || r.below(3) == 0;
+    if leaf {
+        match r.below(7) {
+            0 => Pol::Trivial,
+            1 => {
+                let mut e = [0u8; 64];
+                e.copy_from_slice(&r.bytes(64));
+                Pol::Unsatisfiable(simplicity::FailEntropy::from_byte_array(e))
+            }
+            2 | 3 => Pol::Key(keys[r.below(keys.len() as u64) as usize]),
+            4 => Pol::After(r.below(1000) as u32),
+            5 => Pol::Older(r.below(1000) as u16),
+            _ => Pol::Sha256(sha256::Hash::hash(&r.bytes(4))),
+        }
+    } else {
+        match r.below(5) {
+            0 | 1 => Pol::And { left: Arc::new(gen_pol(r, d - 1, keys)), right: Arc::new(gen_pol(r, d - 1, keys)) },
+            2 | 3 => Pol::Or { left: Arc::new(gen_pol(r, d - 1, keys)), right: Arc::new(gen_pol(r, d - 1, keys)) },
+            _ => {
+                let n = 1 + r.below(4) as usize;
+                let k = 1 + r.below(n as u64) as usize;
+                Pol::Threshold(k, (0..n).map(|_| gen_pol(r, d - 1, keys)).collect())
+            }
+        }
+    }
+}
+
+/// the root of a committed DAG recomputed from scratch with the public `Cmr` constructors
+fn scratch_root(c: &simplicity::CommitNode) -> Cmr {
+    use simplicity::node::Inner;
+    let mut roots: Vec<Cmr> = vec![];
+    for d in c.post_order_iter::<InternalSharing>() {
+        let l = d.left_index.map(|i| roots[i]);
+        let r = d.right_index.map(|i| roots[i]);
+        roots.push(match d.node.inner() {
+            Inner::Iden => Cmr::iden(),
+            Inner::Unit => Cmr::unit(),
+            Inner::InjL(_) => Cmr::injl(l.unwrap()),
+            Inner::InjR(_) => Cmr::injr(l.unwrap()),
+            Inner::Take(_) => Cmr::take(l.unwrap()),
+            Inner::Drop(_) => Cmr::drop(l.unwrap()),
+            Inner::Comp(..) => Cmr::comp(l.unwrap(), r.unwrap()),
+            Inner::Case(..) => Cmr::case(l.unwrap(), r.unwrap()),
+            Inner::AssertL(_, h) => Cmr::case(l.unwrap(), *h),
+            Inner::AssertR(h, _) => Cmr::case(*h, l.unwrap()),
+            Inner::Pair(..) => Cmr::pair(l.unwrap(), r.unwrap()),
+            Inner::Disconnect(..) => Cmr::disconnect(l.unwrap()),
+            Inner::Witness(_) => Cmr::witness(),
+            Inner::Fail(e) => Cmr::fail(*e),
+            Inner::Jet(j) => j.cmr(),
+            Inner::Word(w) => Cmr::const_word(w),
+        });
+    }
+    *roots.last().unwrap()
+}
+
+/// `Policy::cmr` (computed without building the program) against the root of the compiled program
+/// and against that program's tree hashed from scratch; different policies, different roots
+fn policies(ctx: &mut Ctx) {
+    use simplicity::elements::bitcoin::key::Keypair;
+    use simplicity::elements::secp256k1_zkp::Secp256k1;
+    let secp = Secp256k1::new();
+    let keys: Vec<Pk> = (1u8..=4).map(|i| Keypair::from_seckey_slice(&secp, &[i; 32]).unwrap().x_only_public_key().0).collect();
+    let mut seen: HashMap<Cmr, String> = HashMap::new();
+    for it in 0..ctx.scale(400, 8000) {
+        let p = gen_pol(&mut ctx.rng, 1 + (it % 4) as usize, &keys);
+        let text = pol_text(&p);
+        let case = format!("policy {text}");
+        let r = catch(|| {
+            let c = p.commit();
+            (p.cmr(), c.cmr(), scratch_root(&c))
+        });
+        ctx.case(Some(&case));
+        match r {
+            Err(m) => ctx.fail("panic-policy", &case, &m),
+            Ok((direct, compiled, scratch)) => {
+                ctx.count("reach:policy-compilation-route");
+                if text.contains('T') || text.contains("U:") {
+                    ctx.count("reach:policy-with-trivial-or-unsatisfiable-child");
+                }
+                if direct != compiled {
+                    ctx.fail("policy-cmr-differs-from-compiled-program", &case, &format!("Policy::cmr {direct}, commit().cmr() {compiled}"));
+                }
+                if compiled != scratch {
+                    ctx.fail("root-differs-from-scratch-hash", &case, &format!("commit().cmr() {compiled}, tree hashed from scratch {scratch}"));
+                }
+                match seen.get(&direct) {
+                    Some(prev) if *prev != text => ctx.fail("root-collision", &case, &format!("also the Policy::cmr of {prev}")),
+                    Some(_) => {}
+                    None => {
+                        seen.insert(direct, text);
+                    }
+                }
+            }
+        }
+    }
+}
+
 pub fn run(ctx: &mut Ctx) {
+    policies(ctx);
     // type roots
     for d in 0..ctx.scale(60, 600) {
         let t = gen::gen_t(&mut ctx.rng, 1 + (d % 5) as usize);
